@@ -1,10 +1,10 @@
 (* C13 — the result depends only on the selected track's live data.  Property theorems only.
-   About the declarative reader specification CdeSpec.spec_read (tied to cdedb::read by exact correspondence on every generated
-   export; additionally every generated twin pair -- export and irrelevantly edited export -- is evaluated in Coq and run through
+   About the transcription Json.read_fields of cdedb::read (tied to the code by exact correspondence on every generated export)
+   through the declarative specification CdeSpec.spec_read it is proved to compute (CdeRefine); additionally every generated twin pair -- export and irrelevantly edited export -- is evaluated in Coq and run through
    the real binary).  The problem determines verdict and score for every schedule (C03) and, with one worker, the assignment; the
    writer is a function of problem and assignment (C05). *)
 From Coq Require Import List ZArith Bool Arith String.
-Require Import Json CdeThms CdeSpec CdeInvariance.
+Require Import Json CdeThms CdeSpec CdeInvariance CdeRefine.
 Import ListNotations.
 
 (* course_data tid c / reg_data part tid r: exactly what the selected track's view of a course / registration reads: nr, shortname,
@@ -23,8 +23,8 @@ Theorem C13 : forall data data' track ign_c ign_a ff of,
      match items_of "registrations" data, items_of "registrations" data' with
      | Some l, Some l' => Forall2 (fun x y : string * json => fst x = fst y /\ reg_data part_id track_id (snd x) = reg_data part_id track_id (snd y)) l l'
      | None, None => True | _, _ => False end) ->
-  spec_read data track ign_c ign_a ff of = spec_read data' track ign_c ign_a ff of.
-Proof. exact spec_read_depends. Qed.
+  read_fields data track ign_c ign_a ff of = read_fields data' track ign_c ign_a ff of.
+Proof. intros. rewrite !read_fields_refines_spec. apply spec_read_depends; assumption. Qed.
 
 (* without --ignore-assigned the existing assignments (course_id of the selected track) do not enter the problem *)
 Theorem C13_assigned_irrelevant : forall csorted rviews,
